@@ -57,6 +57,11 @@ KERNEL int K(k_where_122)(const size_t* sc, const unsigned* dc, const size_t* sx
   a1_t c; a2_t x; a2_t y; if (!mk1(c,sc,dc) || !mk2(x,sx,dx) || !mk2(y,sy,dy)) return -1;
   return observe(view::where(c,x,y), idx, nidx, oshape, odim, out);
 }
+// mixed element types: condition unsigned[n], x int[n], y a long SCALAR -> NumPy/C element type long, value c ? (long)x : y
+KERNEL int K(k_where_mixed)(const size_t* sc, const unsigned* dc, const int* dx, long y, const size_t* idx, size_t nidx, size_t* oshape, size_t* odim, long* out){
+  a1_t c; hyb_t<int,4,1> x; if (!mk1(c,sc,dc) || !mk1(x,sc,dx)) return -1;
+  return observe(view::where(c,x,y), idx, nidx, oshape, odim, out);
+}
 // view::clip(array, amin, amax) does not compile for hybrid or fixed operands (view::where is handed a maybe-typed condition; the repo's own
 // clip tests are disabled in tests/*/CMakeLists.txt), and the n-ary view::ufunc(op, a, b, c) fails its n_args static_assert for array operands.
 // What is instantiable is the ternary functor on three scalars (scalar_ufunc_t with three operands):
